@@ -233,6 +233,30 @@ def completed(op, before, is_set):
     return ref.d
 
 
+def followup(w, got, is_set, is_tree):
+    """No faults: every stored key is found, a fresh largest key can be stored
+    and removed again, the contents are as before.  -> error text or None."""
+    try:
+        for x in got:
+            k = x if is_set else x[0]
+            if w.pk[k] not in w.t or (not is_set and lab(w.t[w.pk[k]]) != x[1]):
+                return "stored key %r not found" % (k,)
+        nk = w.pk[1001]
+        if nk in w.t:
+            return "absent key found"
+        w.t.add(nk) if is_set else w.t.__setitem__(nk, w.vals[2])
+        if len(w.t) != len(got) + 1 or w.contents()[-1] != (1001 if is_set else (1001, lab(w.vals[2]))):
+            return "after storing a fresh largest key: contents %r" % (w.contents(),)
+        w.t.remove(nk) if is_set else w.t.__delitem__(nk)
+        if w.contents() != got:
+            return "after insert+delete contents %r, expected %r" % (w.contents(), got)
+        if is_tree:
+            w.t._check()
+    except Exception as e:
+        return "%s: %s" % (type(e).__name__, e)
+    return None
+
+
 def run_config(s, fam, kind, impl, sizes, seen_cases, samples):
     is_set = kind in ("Set", "TreeSet")
     is_tree = kind in ("BTree", "TreeSet")
@@ -285,9 +309,7 @@ def run_config(s, fam, kind, impl, sizes, seen_cases, samples):
                     s.evaluations += 1
                     repro = {"family": fam, "kind": kind, "impl": impl, "sizes": list(sizes), "shape": rname,
                              "build": recipe, "op": list(map(repr, op)), "n": n, "exc": exc.__name__}
-                    if not injected:
-                        if caught is not None and op[1] != "resolve" and not isinstance(caught, KeyError):
-                            fail("raises-unprovoked", op, "without a fault the call raised %r" % (caught,), repro)
+                    if not injected:       # fewer than n comparisons: this operation is done
                         break
                     seen_cases.add((tag, sizes, repr(shape), op, n, exc.__name__))
                     if len(samples) < 2 and n == 2:
@@ -339,25 +361,10 @@ def run_config(s, fam, kind, impl, sizes, seen_cases, samples):
                             fail("refcount", op, "reference count differs from slots held (object, surplus): %r" % (bad[:4],), repro)
                     # -- later operations behave normally
                     if ok:
-                        try:
-                            for x in got:
-                                k = x if is_set else x[0]
-                                if w.pk[k] not in w.t or (not is_set and lab(w.t[w.pk[k]]) != x[1]):
-                                    raise H.Damage("stored key %r not found" % (k,))
-                            nk = w.pk[1001]
-                            if nk in w.t:
-                                raise H.Damage("absent key found")
-                            w.t.add(nk) if is_set else w.t.__setitem__(nk, w.vals[2])
-                            if len(w.t) != len(got) + 1 or w.contents()[-1] != (1001 if is_set else (1001, lab(w.vals[2]))):
-                                raise H.Damage("insert of a fresh largest key: contents %r" % (w.contents(),))
-                            w.t.remove(nk) if is_set else w.t.__delitem__(nk)
-                            if w.contents() != got:
-                                raise H.Damage("after insert+delete contents %r, expected %r" % (w.contents(), got))
-                            if is_tree:
-                                w.t._check()
-                        except Exception as e:
+                        msg = followup(w, got, is_set, is_tree)
+                        if msg:
                             ok = False
-                            fail("followup", op, "follow-up workload: %s: %s" % (type(e).__name__, e), repro)
+                            fail("followup", op, "follow-up workload: " + msg, repro)
                     # -- nothing leaked or released twice: destroy everything
                     if ok:
                         w.t = w.u = None
